@@ -59,9 +59,9 @@ def run(ctx):
                       'its own invisibility argument', construct='state:%s' % e['qn'],
                       detail='write-only sink (push_back only)')
             continue
-        if k in ('atomic', 'atomic-member'):
+        if k in ('atomic', 'atomic-member', 'mutable-member'):
             ctx.ok('C14-inventory', '%s : %s' % (e['qn'], e['type']), e['pos'],
-                   'atomic: every load is checked by C14-hint')
+                   k + ': every read is checked by C14-hint')
             continue
         ctx.bad('C14-inventory', '%s : %s' % (e['qn'], e['type']), e['pos'],
                 'state that outlives a call and is not immutable, an init-once singleton, the name cache '
@@ -72,7 +72,8 @@ def run(ctx):
     # ---- C14-hint
     n_loads = 0
     for k, (u, f) in G.defs.items():
-        loads = [x for x in walk(f) if x.get('kind') == 'CXXMemberCallExpr' and _is_atomic_load(x)]
+        loads = [x for x in walk(f) if (x.get('kind') == 'CXXMemberCallExpr' and _is_atomic_load(x)) or
+                 _is_mutable_member_read(u, x)]
         for L in loads:
             n_loads += 1
             _check_hint(ctx, k, u, f, L)
@@ -180,6 +181,45 @@ def _is_atomic_load(x):
     return bool(re.search(r'\batomic<|__atomic_base<', (dtype(o) or '') + ' ' + qtype(o)))
 
 
+def _is_mutable_member_read(u, x):
+    """An rvalue read of a `mutable` data member (a hint kept in a plain member)."""
+    if x.get('kind') != 'ImplicitCastExpr' or x.get('castKind') != 'LValueToRValue':
+        return False
+    m = peel(x)
+    if m is None or m.get('kind') != 'MemberExpr':
+        return False
+    d = u.by_id.get(m.get('referencedMemberDecl'))
+    return bool(d is not None and d.get('kind') == 'FieldDecl' and d.get('mutable'))
+
+
+def _hint_object(L):
+    if L.get('kind') == 'CXXMemberCallExpr':
+        return callee(L)[2]
+    return peel(L)
+
+
+def _hint_stores(u, f):
+    """[(store node, object expr, value expr)] for atomic .store(v) and plain `member = v`
+    on mutable members."""
+    out = []
+    for x in walk(f):
+        if x.get('kind') == 'CXXMemberCallExpr' and callee(x) and callee(x)[1] == 'store' and callee(x)[2] is not None \
+                and re.search(r'atomic', qtype(peel(callee(x)[2])) + dtype(peel(callee(x)[2]))):
+            if call_args(x):
+                out.append((x, callee(x)[2], call_args(x)[0]))
+        elif x.get('kind') == 'BinaryOperator' and x.get('opcode') == '=':
+            m = peel(kids(x)[0])
+            if m.get('kind') == 'MemberExpr':
+                d = u.by_id.get(m.get('referencedMemberDecl'))
+                if d is not None and d.get('mutable'):
+                    out.append((x, kids(x)[0], kids(x)[1]))
+        elif x.get('kind') == 'CXXOperatorCallExpr' and callee(x) and callee(x)[0] == 'fn' and \
+                callee(x)[1].get('name') == 'operator=' and len(call_args(x)) == 2 and \
+                re.search(r'atomic', qtype(peel(call_args(x)[0])) + dtype(peel(call_args(x)[0]))):
+            out.append((x, call_args(x)[0], call_args(x)[1]))
+    return out
+
+
 def _record_fields(u, name):
     for d in u.by_id.values():
         if d.get('kind') == 'CXXRecordDecl' and d.get('completeDefinition') and qn(d) == name:
@@ -219,7 +259,7 @@ def _check_hint(ctx, k, u, f, L):
     keys = F.keys
     g = ctx.cfg(f)
     fn = fname(k)
-    atom = keys.key(callee(L)[2])
+    atom = keys.key(_hint_object(L))
     # the load must initialise a local that is never written again
     H = None
     for a in ancestors(L):
@@ -233,7 +273,7 @@ def _check_hint(ctx, k, u, f, L):
                 'the remembered index is not bound to a write-once local: its uses cannot be tied to one '
                 'validated value', construct='hint-form:%s:%s' % (fn, atom))
         return
-    Hk = '%s#%s' % (H.get('name'), H['id'])
+    Hk = keys.subst.get(H['id'], '%s#%s' % (H.get('name'), H['id']))
     env = build_env(f, keys, F.never_written)
     # the hint and every pointer/reference local derived from it
     derived = {H['id']}
@@ -359,14 +399,12 @@ def _check_hint(ctx, k, u, f, L):
     env2 = dict(env)
     env2[ubvar] = ('ptr', base[1], {'U': 1})
     pf = PtrNorm(keys, env2)
-    stores = [x for x in walk(f) if x.get('kind') == 'CXXMemberCallExpr' and callee(x) and
-              callee(x)[1] == 'store' and re.search(r'atomic', qtype(peel(callee(x)[2])) + dtype(peel(callee(x)[2])))]
     st_ok = False
-    for s in stores:
-        v = pf.norm(call_args(s)[0]) if call_args(s) else None
+    for (snode, sobj, sval) in _hint_stores(u, f):
+        v = pf.norm(sval)
         ok = v is not None and v[0] == 'int' and v[2] == {'U': 1}
         st_ok = st_ok or ok
-        ctx.check(ok, 'C14-hint', '(v) value stored in %s in %s' % (keys.key(callee(s)[2]), fn), s,
+        ctx.check(ok, 'C14-hint', '(v) value stored in %s in %s' % (keys.key(sobj), fn), snode,
                   'the value remembered is not the index of the fall-back search result relative to the first '
                   'table entry', construct='hint-store:%s' % fn, detail=str(v[2] if v else None))
     # selected element: hint path vs fall-back
